@@ -118,21 +118,52 @@ def check_next_rtc(run, model, rule, E):
             rec, pol = is_nonempty_test(t.ast, q)
             if rec:
                 tests.append((t, 'true' if pol else 'false'))
-    if len(tests) != 1:
+    if len(tests) > 1:
         raise AnalysisError('next_rtc: expected one non-empty test of self.queue, found %d' % len(tests))
-    t, lab = tests[0]
+    if not tests:
+        # the emptiness decision is taken some other way (through a local, a helper's answer ...): judged without it - a step pops at most once, dispatches at most
+        # once, every dispatch follows a pop and every pop is followed by the dispatch on every normal path
+        pc = count(g, [n for n, _c, _m in pops])
+        dc = count(g, [n for n, _c in disp])
+        ok = pc in ((0, 1), (1, 1)) and dc == pc and all(any(g.dominates(pn, dn) for pn, _c, _m in pops) for dn, _c2 in disp) \
+            and all(any(g.postdominates(dn, pn) for dn, _c2 in disp) for pn, _c, _m in pops)
+        run.inst(rule, f, 'a step pops at most once and dispatches exactly what it popped, once', ok,
+                 '' if ok else 'next_rtc pops %s times and dispatches %s times over its paths, or a pop is not followed by the dispatch' % (pc, dc), obligation=True)
+        t, lab = None, None
+    else:
+        t, lab = tests[0]
     other = 'false' if lab == 'true' else 'true'
-    for m, l in g.succ[t]:
+    from .boolflow import values_at as _values_at
+
+    def known_nonempty(node):
+        """the emptiness test is decided "not empty" on every way to node (directly by its edge, or through locals that carry its answer)"""
+        if t is None:
+            return True
+        if guarded_by_edge(g, node, t, lab):
+            return True
+        try:
+            vs = _values_at(g, node, {norm(t.ast)}, fnode=f.node, params=f.params)
+        except AnalysisError:
+            return False
+        return bool(vs) and all(v.get(norm(t.ast)) is (lab == 'true') for v in vs)
+    branch = []
+    for m, l in (g.succ[t] if t is not None else []):
         pc = count(g, [n for n, _c, _m in pops], start=m)
         dc = count(g, [n for n, _c in disp], start=m)
-        if l == lab:
-            ok = pc == (1, 1) and dc == (1, 1)
-            run.inst(rule, f, 'non-empty: one pop and one dispatch', ok,
-                     '' if ok else 'on the non-empty path next_rtc pops %s times and dispatches %s times (must be exactly one each)' % (pc, dc), obligation=True)
-        else:
-            ok = pc == (0, 0) and dc == (0, 0)
-            run.inst(rule, f, 'empty: no pop, no dispatch', ok,
-                     '' if ok else 'on the empty path next_rtc pops %s / dispatches %s times' % (pc, dc), obligation=True)
+        branch.append((l == lab, pc, dc, (pc == (1, 1) and dc == (1, 1)) if l == lab else (pc == (0, 0) and dc == (0, 0))))
+    if branch and all(b[3] for b in branch):
+        run.inst(rule, f, 'non-empty: one pop and one dispatch', True, obligation=True)
+        run.inst(rule, f, 'empty: no pop, no dispatch', True, obligation=True)
+    elif branch:
+        # the two sides of the test do not separate the paths syntactically (its answer travels through a local): judged by pairing instead - at most one pop on any
+        # path, every pop only where the queue is known non-empty, every dispatch after a pop, every pop followed by the dispatch
+        pc = count(g, [n for n, _c, _m in pops])
+        dc = count(g, [n for n, _c in disp])
+        ok = pc in ((0, 1), (1, 1)) and dc == pc and all(any(g.dominates(pn, dn) for pn, _c, _m in pops) for dn, _c2 in disp) \
+            and all(any(g.postdominates(dn, pn) for dn, _c2 in disp) for pn, _c, _m in pops) and all(known_nonempty(pn) for pn, _c, _m in pops)
+        run.inst(rule, f, 'non-empty: one pop and one dispatch', ok,
+                 '' if ok else 'next_rtc pops %s times and dispatches %s times over its paths (sides of the emptiness test: %s); a step must pop exactly once when the queue is not empty, '
+                 'dispatch what it popped, and do neither when it is empty' % (pc, dc, [(('non-empty' if b[0] else 'empty'), b[1], b[2]) for b in branch]), obligation=True)
     # the step only takes from the queue: whatever happens to the dispatch (also on the exception paths), the popped event is not put back
     others = [(n, c, m) for n, c, m in ops_on(g, q, None, fnode=f.node) if m not in REMOVE and m not in ('__len__',)]
     others = [(n, c, m) for n, c, m in others if m in ADD or m in ('extend', 'extendleft', 'insert', 'rotate', 'clear', 'remove')]
@@ -143,7 +174,7 @@ def check_next_rtc(run, model, rule, E):
              node=others[0][1] if others else None, obligation=True)
     # nothing popped or dispatched before the test
     for n, c, m in pops:
-        ok = guarded_by_edge(g, n, t, lab) and END[m] == E
+        ok = known_nonempty(n) and END[m] == E
         run.inst(rule, f, 'pop at the consumer end under the non-empty test', ok, '' if ok else 'a pop is not guarded by the non-empty test', node=c, obligation=True)
     defs = local_defs(f.node)
     for n, c in disp:
@@ -153,6 +184,12 @@ def check_next_rtc(run, model, rule, E):
                 arg = kw.value
         val = resolve_name(arg, defs) if arg is not None else None
         ok = any(val is pc for _n, pc, _m in pops)
+        if not ok and isinstance(arg, ast.Name):
+            # several definitions in the function: the ones that reach the dispatch decide
+            from .hsmsites import reaching_defs as _rd
+            rd_, valmap_ = _rd(g, f.params)
+            vals_ = [valmap_.get(d_) for d_ in rd_[n].get(arg.id, set())]
+            ok = bool(vals_) and all(any(v_ is pc for _n, pc, _m in pops) for v_ in vals_)
         run.inst(rule, f, 'dispatches the popped event', ok,
                  '' if ok else 'next_rtc dispatches %s, which is not the event it popped' % (norm(arg) if arg is not None else None), node=c, obligation=True)
         # the pop precedes the dispatch
